@@ -212,3 +212,27 @@ Example pair_nontrivial :
   /\ retry_demanded "cwd" "proc_cwd" 33 None Alive false = Some RDenied.
 Proof. vm_compute. auto 10. Qed.
 
+
+(* ------------------------------------------------------------------ every native call of the method fails *)
+Theorem all_model : forall p meth site c r,
+  err_ok p (c_err c) = true -> known_class p meth site c = false ->
+  all_demanded p meth site c = Some r -> all_outcome p meth site c = r.
+Proof.
+  intros p meth site c r He Hk Hd.
+  unfold all_demanded, recovery_nocall, all_outcome, inner_nocall, contract, nosuch_failure, wrap_procfs,
+    known_class, known_pid0_unlisted in *.
+  destruct p.
+  - case_cond c.
+  - case_cond c.
+  - destruct (g_netbsd_cmdline meth site), (g_netbsd_exe meth site); case_cond c.
+  - case_cond c.
+  - case_cond c.
+  - destruct (g_aix_io meth site); case_cond c.
+  - destruct (g_win_partial meth); case_cond c.
+Qed.
+
+Example all_nontrivial :
+  all_demanded SunOS "exe" "os.readlink" (Build_cond ENOENT Gone false) = Some RNoSuch
+  /\ all_demanded SunOS "exe" "os.readlink" (Build_cond EACCES Alive false) = Some RDenied
+  /\ demanded SunOS "exe" "os.readlink" (Build_cond EACCES Alive false) = Some RVal.   (* one read failing: '' is fine *)
+Proof. vm_compute. auto. Qed.
